@@ -8,7 +8,7 @@ From Coq Require Import List Arith NArith Bool String.
 From GIV.Lib Require Import Regex Str.
 From GIV.Lib Require Import Backtrack.
 From GIV.Gen Require Import BlockRegex.
-From GIV.Model Require Import C02 C10 C11 C10B C11B.
+From GIV.Model Require Import C02 C10 C11 C10B C10BSpec C11B.
 From GIV.Proofs Require Import C10 C11 C11B C11E C11H.
 Import ListNotations.
 
